@@ -15,13 +15,34 @@ class Injected(Exception):
     pass
 
 
+class InjectedAttributeError(AttributeError):
+    pass
+
+
+class InjectedIndexError(IndexError):
+    pass
+
+
+class InjectedValueError(ValueError):
+    pass
+
+
+class InjectedRuntimeError(RuntimeError):
+    pass
+
+
+_CLASSES = {'Exception': Injected, 'AttributeError': InjectedAttributeError, 'IndexError': InjectedIndexError,
+            'ValueError': InjectedValueError, 'RuntimeError': InjectedRuntimeError}
+_CLS = {'c': Injected}
+
+
 def _failing(*a, **k):
     # runs inside a worker process (forked after the substitution)
     from fast_ticc.admm import front_end as real
     i = _CALLS['n']
     _CALLS['n'] += 1
     if _FAIL_AT['idx'] is not None and i == _FAIL_AT['idx']:
-        raise Injected('injected fault in optimisation task %d' % i)
+        raise _CLS['c']('injected fault in optimisation task %d' % i)
     return real.admm_optimize_theta(*a, **k)
 
 
@@ -51,15 +72,20 @@ def replay(w):
                 os.environ.pop('CUPCAKE_ENABLE_MULTIPROCESSING', None)
             nproc = int(nt.get('nproc', 1))
             real = admm.admm_optimize_theta
+            _CLS['c'] = _CLASSES.get(nt.get('fault_class', 'Exception'), Injected)
             _CALLS['n'] = 0
             _FAIL_AT['idx'] = (int(nt.get('round', 0)) * K + int(nt.get('cluster', 0))) if not env else 0
             before = len(_children())
             admm.admm_optimize_theta = _failing
             raised, res = None, None
             try:
-                res = fast_ticc.ticc_labels(_data(K), window_size=1, num_clusters=K, iteration_limit=max(lim, int(nt.get('round', 0)) + 1),
-                                            min_cluster_size=2, sparsity_weight=0.1, label_switching_cost=5.0,
-                                            num_processors=nproc)
+                kw = dict(window_size=1, num_clusters=K, iteration_limit=max(lim, int(nt.get('round', 0)) + 1),
+                          min_cluster_size=2, sparsity_weight=0.1, label_switching_cost=5.0, num_processors=nproc)
+                if nt.get('joint'):
+                    d = _data(K)
+                    res = fast_ticc.ticc_joint_labels([d[:len(d) // 2], d[len(d) // 2:]], **kw)
+                else:
+                    res = fast_ticc.ticc_labels(_data(K), **kw)
             except BaseException as exc:
                 raised = exc
             finally:
@@ -70,7 +96,7 @@ def replay(w):
             if raised is None:
                 # the scripted round did not happen on this data (early convergence): no verdict
                 return {'reproduced': False, 'signature': None, 'observed': dict(obs, note='fault position not reached')}
-            if not isinstance(raised, Injected):
+            if type(raised) is not _CLS['c']:
                 return {'reproduced': True, 'signature': 'different-exception-surfaces', 'observed': obs}
             if alive > 0:
                 return {'reproduced': True, 'signature': 'worker-processes-left-behind-after-failure', 'observed': obs}
